@@ -1092,14 +1092,14 @@ pub fn run(ctx: &mut Ctx) {
     let pool = PoolSigner::new(NKEYS);
     // ---- part 1
     let thorough = ctx.tier == Tier::Thorough;
-    let created = ctx.stage_budget((3_000, 24_000), if thorough { 600 } else { 120 }, 0, 8);
+    let created = ctx.stage_budget((3_000, 100_000), if thorough { 600 } else { 120 }, 0, 8);
     let mut rng = ctx.rng("created");
     for j in 0..created {
         let i = ctx.shard + j * ctx.nshards.max(1);
         created_message(ctx, &pool, &mut rng, i);
     }
     // ---- part 2
-    let messages = ctx.stage_budget((30_000, 300_000), if thorough { 5_000 } else { 800 }, 0, 48);
+    let messages = ctx.stage_budget((30_000, 1_500_000), if thorough { 5_000 } else { 800 }, 0, 48);
     let full_plan = ctx.stage != Stage::Valgrind;
     let mut rng = ctx.rng("messages");
     let mut done = 0u64;
